@@ -80,6 +80,14 @@ def run(chk):
         for kind in KINDS:
             for m in (1, 2, 3, 8, 64):
                 cells.append(dict(kind=kind, m=m, groups=groups, shape=name, oracle=j, trials=trials_for(m, n, quick)))
+    # the same cells through ONE sketcher object reused with reinit between the two sets (as the crate's own tests do)
+    for name, groups, j in shapes():
+        if name in ("nested", "overlap", "two-items", "1-vs-1000"):
+            n = sum(g[0] for g in groups)
+            for kind in KINDS:
+                for m in (3, 16, 64):
+                    cells.append(dict(kind=kind, m=m, groups=groups, shape=name + "+reuse", oracle=j, reuse=True,
+                                      trials=trials_for(8 if m < 64 else 64, n, quick)))
     res_ = freqfam.run_pairs(chk, cells, "pairs")
     freqfam.judge_pairs(chk, cells, res_, "pairs")
     chk.cov["pair_cells"] = len(cells)
